@@ -2,11 +2,17 @@ package checks
 
 import (
 	"bytes"
+	"errors"
 	"fmt"
 	"math/rand"
+	"os"
+	"path/filepath"
 	"regexp"
 	"strconv"
 	"strings"
+	"sync"
+
+	"github.com/ProtonMail/gluon/verifhooks"
 
 	"verifharness/ev"
 	"verifharness/imapc"
@@ -28,6 +34,22 @@ type c13Case struct {
 	bad   bool
 	msg   *mimePart
 	orig  []byte
+	prov  string
+}
+
+// removeStoreFile deletes the store file of a message (named after its internal id) below the data directory.
+func removeStoreFile(dir, id string) bool {
+	removed := false
+
+	_ = filepath.WalkDir(filepath.Join(dir, "data"), func(path string, d os.DirEntry, err error) error {
+		if err == nil && !d.IsDir() && d.Name() == id {
+			removed = os.Remove(path) == nil
+		}
+
+		return nil
+	})
+
+	return removed
 }
 
 func (c *c13Case) violate(sig, what string) {
@@ -124,7 +146,7 @@ func around(s string, i int) string {
 }
 
 func runC13(r *ev.Run) {
-	r.SetRule("generated MIME messages whose section bytes are known by construction (nesting <= 4, multipart/message-rfc822/leaf parts, folded headers, CRLF and LF line endings, 8-bit data, an occasional leaf across the store's 256 KiB block edge) are APPENDed; every relation of the property is then checked on the wire: BODY[] vs the appended bytes (+ one server ID line), RFC822/RFC822.SIZE/HEADER/TEXT, every BODY[p], BODY[p.MIME], BODY[p.HEADER], BODY[p.TEXT], partials <o.n> with o,n in {0,1,len-1,len,len+1,2^31,2^63-1}, HEADER.FIELDS vs HEADER.FIELDS.NOT partition. distinct = distinct (relation, part kind, depth, line ending) tuples")
+	r.SetRule("generated MIME messages whose section bytes are known by construction (nesting <= 4, multipart/message-rfc822/leaf parts, folded headers, CRLF and LF line endings, 8-bit data, an occasional leaf across the store's 256 KiB block edge) are APPENDed (7 in 10 plainly; 1 in 10 rejected by the remote, kept in the recovery mailbox and moved or copied out of it; 2 in 10 appended, then their store file removed so that the next fetch downloads them from the remote again and later ones read what was written back); every relation of the property is then checked on the wire: BODY[] vs the appended bytes (+ one server ID line), RFC822/RFC822.SIZE/HEADER/TEXT, every BODY[p], BODY[p.MIME], BODY[p.HEADER], BODY[p.TEXT], partials <o.n> with o,n in {0,1,len-1,len,len+1,2^31,2^63-1}, HEADER.FIELDS vs HEADER.FIELDS.NOT partition. distinct = distinct (relation, part kind, depth, line ending) tuples")
 	r.Assume("literal framing is checked by the wire parser: a {n} that is not followed by exactly n bytes and a well-formed continuation makes the response unparseable, which is reported")
 
 	msgs := r.Pick(700, 25000)
@@ -147,6 +169,16 @@ func runC13(r *ev.Run) {
 
 		return all
 	})
+
+	var rejected sync.Map // markers the remote rejects
+
+	s.Users[0].Conn.RejectLiteral = func(lit []byte) error {
+		if _, ok := rejected.Load(markerOfLiteral(lit)); ok {
+			return errors.New("verif: the remote rejects this message")
+		}
+
+		return nil
+	}
 
 	ev.Parallel(workers, workers, func(w int) {
 		conn := s.MustLogin(fmt.Sprintf("w%d", w))
@@ -182,15 +214,67 @@ func runC13(r *ev.Run) {
 			msg := g.message(0, label)
 			orig := msg.Bytes()
 
+			// how the message gets into the mailbox: appended; rejected by the remote, kept in the recovery
+			// mailbox and moved / copied out of it; appended, its store file lost and downloaded again
+			prov := []string{"appended", "appended", "appended", "appended", "appended", "appended", "appended", "recovered", "redownloaded", "redownloaded"}[rng.Intn(10)]
+
+			if prov == "recovered" {
+				rejected.Store(label, true)
+			}
+
 			res := conn.Cmd("APPEND "+box+" ", imapc.Lit(orig))
-			if !res.OK() {
+			rejected.Delete(label)
+
+			if !res.OK() && prov == "recovered" && res.Status == "NO" {
+				uid := uint32(0)
+
+				if sel := conn.Cmd("SELECT " + imapc.Quote(verifhooks.RecoveryMailboxName)); sel.OK() {
+					if rows, err := fetchRows(conn.Cmd("UID FETCH 1:* (UID BODY.PEEK[HEADER.FIELDS (" + markerHeader + ")])")); err == nil {
+						for _, row := range rows {
+							if row.Marker == label {
+								uid = row.UID
+							}
+						}
+					}
+				}
+
+				verb := []string{"MOVE", "COPY"}[rng.Intn(2)]
+
+				if uid != 0 {
+					res = conn.Cmdf("UID %s %d %s", verb, uid, box)
+				}
+
+				if sel := conn.Cmd("SELECT " + box); !sel.OK() {
+					r.Inconclusive("SELECT %s: %s", box, sel)
+					return
+				}
+
+				if uid == 0 || !res.OK() {
+					r.Violate("C13 rejected-message-not-recoverable", fmt.Sprintf("the remote rejected the APPEND of %s; the message could not be taken out of the recovery mailbox (UID %d, %s: %s %s)", label, uid, verb, res.Status, res.Text), label, nil)
+					continue
+				}
+
+				r.Count("messages_taken_out_of_the_recovery_mailbox", 1)
+				prov += " " + verb
+			} else if !res.OK() {
 				r.Violate("C13 append-refused", fmt.Sprintf("APPEND of a well-formed generated message refused: %s", res.Text), label, map[string]any{"message": fmt.Sprintf("%q", shorten(string(orig), 4000))})
 				continue
 			}
 
 			n++
 
-			c := &c13Case{r: r, label: label, rng: rng, s: s, c: conn, seq: n, msg: msg, orig: orig}
+			c := &c13Case{r: r, label: label, rng: rng, s: s, c: conn, seq: n, msg: msg, orig: orig, prov: prov}
+
+			if prov == "redownloaded" {
+				// the first fetch names the store file; with the file gone the next fetch downloads the message
+				// again from the remote and every later one reads what was written back
+				if full, _, ok := c.fetchOne("BODY.PEEK[]"); ok {
+					if id := gluonIDLineRe.FindString(full); id != "" && removeStoreFile(s.Opts.Dir, strings.TrimSpace(strings.TrimPrefix(id, "X-Pm-Gluon-Id: "))) {
+						r.Count("store_files_removed_before_fetching", 1)
+					}
+				}
+			}
+
 			c.run(g.nl)
 			logs[w] = c.log
 
@@ -231,7 +315,7 @@ func (c *c13Case) run(nl string) {
 	}
 
 	mark := func(rel string, p *mimePart, path string) {
-		c.r.Distinct(fmt.Sprintf("%s %s depth=%d %s", rel, partKind(p), strings.Count(path, ".")+1, nlName))
+		c.r.Distinct(fmt.Sprintf("%s %s depth=%d %s %s", rel, partKind(p), strings.Count(path, ".")+1, nlName, c.prov))
 	}
 
 	// 1. Whole message.
